@@ -18,9 +18,9 @@ import (
 func init() {
 	Register(&Prop{
 		ID: "C09",
-		Decides: "sigagg.Aggregator: (G1) every non-nil result of aggregate is the very value handed to a.verifyFunc together with the pubkey parameter, on the nil-error edge of that call; " +
-			"(G2) subscribers are called only from Aggregate, after the per-validator loop, with (a clone of) the set filled only by checked aggregate results; any aggregate error leaves without publishing (all-or-nothing); " +
-			"(G3) the map given to tbls.ThresholdAggregate is keyed by ShareIdx of the supplied partials and its size is tested against a.threshold after it was filled; " +
+		Decides: "sigagg.Aggregator, on the paths of Aggregate with in-package helpers/closures executed in place: (G1) every value stored into the set handed to subscribers is the very instance passed to a.verifyFunc under the key it is stored for, on a path where that call returned nil; " +
+			"(G2) subscribers are called only from Aggregate, after the loop over the input set is exhausted, with (a clone of) a set that holds a checked aggregate for every key of the input set, each built from the partials of that key's entry; any failure leaves without publishing (all-or-nothing); " +
+			"(G3) the map given to tbls.ThresholdAggregate is keyed by ShareIdx of the partials of an entry of the input set and its size is tested against a.threshold after it was filled; " +
 			"(G4) the verifier chain NewVerifier -> core.VerifyEth2SignedData -> signing.Verify -> GetDataRoot/GetDomain -> tbls.Verify passes the same pubkey, the data's own DomainName/Epoch/MessageRoot/Signature and hashes SigningData{ObjectRoot: root, Domain: GetDomain(name, epoch)}; each link reports success only through the next one; " +
 			"(G5) every core.Eth2SignedData implementor returns one signing.Domain* constant, equal to the reference table; (G6) production code builds the aggregator with sigagg.NewVerifier and verifyFunc is only set by New.",
 		NotDecided: "cryptographic validity (that tbls.Verify accepts only signatures of the group key, that threshold aggregation of disagreeing/invalid shares fails verification); per-type Epoch() derivations; correctness of the beacon node's domain answer.",
@@ -57,6 +57,12 @@ func init() {
 			{ID: "C09-G1-reinject-after-verify", File: "core/sigagg/sigagg.go", Expect: "G1",
 				Old: "\tspan.SetStatus(codes.Ok, \"success\")\n",
 				New: "\tspan.SetStatus(codes.Ok, \"success\")\n\n\tif other, err := parSigs[0].SignedData.SetSignature(tblsconv.SigToCore(sig)); err == nil {\n\t\taggSig = other\n\t}\n"},
+			// G1, whole-walk formulation: the break sits in Aggregate, not in the per-validator helper
+			{ID: "C09-G1-publish-partial-object", File: "core/sigagg/sigagg.go", Expect: "G1",
+				Old: "\t\toutput[pubkey] = signed\n", New: "\t\t_ = signed\n\t\toutput[pubkey] = parSigs[0].SignedData\n"},
+			{ID: "C09-G1-verified-under-other-key", File: "core/sigagg/sigagg.go", Expect: "G1",
+				Old: "\t\tsigned, err := a.aggregate(ctx, pubkey, parSigs)\n",
+				New: "\t\tsigned, err := a.aggregate(ctx, core.PubKey(duty.String()), parSigs)\n"},
 			// G2
 			{ID: "C09-G2-publish-on-failure", File: "core/sigagg/sigagg.go", Expect: "G2",
 				Old: "\t\t\treturn errors.Wrap(err, \"threshold aggregate\", z.Any(\"pubkey\", pubkey))",
@@ -320,7 +326,7 @@ func c09CallName(call *ssa.Call) string {
 }
 
 // c09Peel lists static callees that only re-type their argument.
-var c09Peel = map[string]bool{"core.Signature.ToETH2": true}
+var c09Peel = map[string]bool{"core.Signature.ToETH2": true, "tbls/tblsconv.SigToCore": true}
 
 // c09Origins returns every possible origin of v: phi edges and the stores into a local that is
 // only loaded/sliced are all followed (flow-insensitively).
@@ -578,19 +584,25 @@ func c09G5(c *rt.Ctx) {
 			c.Unsure(construct, m.Pos(), "method has no body")
 			continue
 		}
+		// the value of every return, on the paths of the method with in-package helpers executed in place (a switch over
+		// a kind constant in a helper, a constant table indexed by a constant, a named constant local all denote one value)
 		vals := map[string]bool{}
 		unknown := false
-		for _, r := range c09Returns(fn) {
-			if len(r.Vals) != 1 || r.Vals[0] == nil {
+		cfg := c09WalkCfg(fn)
+		cfg.OnReturn = func(st *an.H09State, _ *ssa.Return, rv []an.H09SV) {
+			if len(rv) != 1 {
 				unknown = true
-				continue
+				return
 			}
-			k, ok := an.Unwrap(r.Vals[0]).(*ssa.Const)
-			if !ok || k.Value == nil || k.Value.Kind() != constant.String {
+			k, ok := c09ConstOf(st, rv[0])
+			if !ok || k.Kind() != constant.String {
 				unknown = true
-				continue
+				return
 			}
-			vals[constant.StringVal(k.Value)] = true
+			vals[constant.StringVal(k)] = true
+		}
+		if res := an.H09Walk(fn, cfg); !res.Complete || res.Paths == 0 {
+			unknown = true
 		}
 		want, listed := c09DomainTable[tn]
 		switch {
